@@ -114,7 +114,13 @@ func vC20KMeans(c *vCtx, d, maxLen, part, parts int) {
 			for k := -1; k <= 6; k++ {
 				var conv [][]float32
 				var convMap []int
-				for _, maxIter := range []int{-1, 0, 1, 2, 100, 101} {
+				converged := false
+				// (math.MaxInt: the "run until convergence" idiom; after 100 vs 101 it must still
+				// return a full, valid mapping)
+				for _, maxIter := range []int{-1, 0, 1, 2, 100, 101, math.MaxInt, math.MaxInt - 1, math.MaxInt32} {
+					if maxIter > 101 && !converged {
+						continue // (a run that cycles would not end)
+					}
 					c.Evaluations++
 					desc := func() string {
 						return fmt.Sprintf("train=%v metric=%s k=%d maxIter=%d", orig, metric, k, maxIter)
@@ -182,6 +188,12 @@ func vC20KMeans(c *vCtx, d, maxLen, part, parts int) {
 					}
 					if maxIter == 100 {
 						conv, convMap = cen, mp
+					}
+					if maxIter > 101 && (!vDeepEq(conv, cen) || !vIntsEq(convMap, mp)) {
+						c.Violation("kmeans-larger-budget-changes-a-converged-run", "", cfgS, nil, fmt.Sprintf("%s: %v %v, with maxIter=100 (converged) %v %v", desc(), cen, mp, conv, convMap))
+					}
+					if maxIter == 101 {
+						converged = vDeepEq(conv, cen) && vIntsEq(convMap, mp)
 					}
 					if maxIter == 101 && vDeepEq(conv, cen) && vIntsEq(convMap, mp) {
 						// converged (one more iteration changes nothing, which also rules out a
